@@ -339,7 +339,10 @@ pub enum GenMode {
     Random,
 }
 
-const UTF8_SAMPLES: [&str; 6] = ["a", "é", "€", "😀", "ß", "z"];
+/// 1-4 byte characters, including ones whose case mappings change their UTF-8 length
+/// (U+0130, U+023A, U+023E grow when lower-cased; U+0149, U+0390, U+FB01, U+1E9E, U+212A change when
+/// upper- or lower-cased), a combining mark and an upper-case ASCII letter.
+const UTF8_SAMPLES: [&str; 16] = ["a", "é", "€", "😀", "ß", "z", "İ", "Ⱥ", "Ⱦ", "ŉ", "ΐ", "ﬁ", "ẞ", "K", "\u{301}", "Q"];
 
 /// Text of exactly `n` bytes made of 1..4-byte characters (n >= 0).
 pub fn utf8_text(rng: &mut Rng, n: usize) -> Vec<u8> {
